@@ -257,7 +257,15 @@ def r3(R):
                 return 3
             return Violation('an index entry is not saved as a (prefix, '
                              'bucket) pair')
-        return Violation('something is saved after the terminating None')
+        # after the terminator: an optional trailer (readers stop at the
+        # None, so it cannot be taken for an entry) -- but never another
+        # entry or terminator, which no reader would see
+        if isinstance(a, ast.Tuple) or (isinstance(a, ast.Constant) and
+                                        a.value is None):
+            return Violation('an index entry (or a second terminator) is '
+                             'saved after the terminating None: load stops '
+                             'at the None and never sees it')
+        return 3
 
     def at(node, st):
         if node.id == g.exit_return and st != 3:
@@ -380,7 +388,17 @@ def r5(R):
                     and op.path[0] == '%local' for op in F.ops(n))]
     R.instance('fsIndex.load', load_sites=len(loads))
     R.require(loads, 'fsIndex.load no longer unpickles')
+    # the loop that reads the entries (it breaks at the falsy terminator)
+    entry_loops = [w for w in walk_local(f.node) if isinstance(w, ast.While)
+                   and any(isinstance(x, ast.Break) for x in ast.walk(w))]
+    R.require(entry_loops, 'fsIndex.load has no entry loop')
+    loop_end = max(w.end_lineno for w in entry_loops)
     for n in loads:
+        if n.lineno is not None and n.lineno > loop_end:
+            # an optional trailer read after the terminating None was seen:
+            # running into the end of the file there means "saved without
+            # the trailer", the entries are complete
+            continue
         # from the exception edge of this load, a normal return of the
         # function must be unreachable
         seen, stack = set(), [t for t, lab in n.succ if lab in ('e', 'eb')]
